@@ -435,9 +435,16 @@ class AsyncPettingZooVecEnv(PettingZooVecEnv):
                 logger.warn(
                     f"Calling `close` while waiting for a pending call to `{self._state.value}` to complete."
                 )
+                if not all(process.is_alive() for process in self.processes):
+                    # A dead worker never answers: do not block on the pending call
+                    timeout = 0
                 function = getattr(self, f"{self._state.value}_wait")
                 function(timeout)
         except mp.TimeoutError:
+            terminate = True
+        except Exception:
+            # A worker failed or died during the pending call (already logged):
+            # closing must still complete and leave no worker behind
             terminate = True
 
         if terminate:
@@ -447,11 +454,17 @@ class AsyncPettingZooVecEnv(PettingZooVecEnv):
         else:
             for pipe in self.parent_pipes:
                 if (pipe is not None) and (not pipe.closed):
-                    pipe.send(("close", None))
+                    try:
+                        pipe.send(("close", None))
+                    except (BrokenPipeError, ConnectionResetError):
+                        pass  # worker process is already gone
 
             for pipe in self.parent_pipes:
                 if (pipe is not None) and (not pipe.closed):
-                    pipe.recv()
+                    try:
+                        pipe.recv()
+                    except (EOFError, ConnectionResetError):
+                        pass  # worker process is already gone
 
         for pipe in self.parent_pipes:
             if pipe is not None:
